@@ -250,6 +250,9 @@ def corruption_case(ctx, case):
 SIGSETS = [({'sigfield1': 1}, '00'), ({'sigfield1': 1, 'sigfield2': 1}, '00'), ({'sigfield1': 1, 'sigfield2': 1}, '01'),
            ({'sigfield2': 1, 'sigfield8': 1}, '00'), ({'sigfield1': 1, 'sigfield3': 1, 'sigfield8': 1}, '84'),
            ({'sigfield%d' % i: 1 for i in range(1, 9)}, '5a')]
+NBASE_SETS = len(SIGSETS)
+SIGSETS += [({'sigfield%d' % i: 1 for i in range(1, 9)}, '%02x' % (1 << b)) for b in range(8)] + \
+    [({'sigfield%d' % i: 1 for i in range(1, 9)}, 'a5'), ({'sigfield%d' % i: 1 for i in (2, 4, 6, 7)}, '7e')]
 
 
 def builder_case(ctx, case):
@@ -334,9 +337,17 @@ def builder_case(ctx, case):
     # a changed covered field / other key make the adapter check script fail
     sf2 = dict(sf)
     cov = [n for n in sorted(sf) if not fl >> (int(n[-1]) - 1) & 1]
-    sf2[cov[0]] = sf2[cov[0]] + b'!'
-    if auth([wit.bytes, l1.bytes], sf2):
-        ctx.violation({'builder': 'make_adapter_locks_pub', 'clause': 'changed covered field rejected'}, f'{tag}')
+    if cov:
+        sf2[cov[0]] = sf2[cov[0]] + b'!'
+        if auth([wit.bytes, l1.bytes], sf2):
+            ctx.violation({'builder': 'make_adapter_locks_pub', 'clause': 'changed covered field rejected'}, f'{tag}')
+    exc = [n for n in sorted(sf) if fl >> (int(n[-1]) - 1) & 1]
+    for name_ in exc:
+        sf3 = dict(sf)
+        sf3[name_] = sf3[name_] + b'!'
+        ctx.ran()
+        if not auth([wit.bytes, l1.bytes], sf3):
+            ctx.violation({'builder': 'make_adapter_locks_pub', 'clause': 'a field excluded by the flags may change'}, f'{tag} {name_}')
     X2 = refed.public_key(env.sym(seed, 'K%d' % ((k + 1) % 3)))
     l1o, _ = T_.make_adapter_locks_pub(X2, Tp, flags)
     if auth([wit.bytes, l1o.bytes], sf):
@@ -355,7 +366,8 @@ def blocks(tier, seed):
         bases += [(k, ml, tws[i][0], tws[i][1]) for k, ml, i in
                   ((2, 0, 0), (2, 1, 7), (0, 64, 8), (1, 127, 9), (0, 31, 10), (2, 33, 11), (1, 255, 3), (0, 512, 4), (2, 63, 5), (1, 128, 12))]
     cor = [b + (w,) for b in bases for w in ('sa', 'R', 'T', 'X', 'm')]
-    bld = [(k, tn, t, si) for k in (range(2) if q else range(3)) for tn, t in (tws[:10] if q else tws) for si in range(len(SIGSETS))]
+    bld = [(k, tn, t, si) for k in (range(2) if q else range(3)) for tn, t in (tws[:10] if q else tws) for si in range(NBASE_SETS)]
+    bld += [(0, tn, t, si) for tn, t in (tws[6:8] if q else tws[:12]) for si in range(NBASE_SETS, len(SIGSETS))]
     names = ('MASU', 'MASV', 'CAS', 'DAS', 'DERIVE_POINT', 'DERIVE_SCALAR', 'SIGN_STACK', 'CLAMP')
     seqs = [(a, b) for a in names for b in names]
     return [
